@@ -21,7 +21,7 @@ from vf.xmodel import Schema, Rop
 
 SHARDS = {'quick': 16, 'thorough': 64}
 TIMEOUT = {'quick': 1500, 'thorough': 7200}
-MUST_HIT = ['Count.association', 'Count.uniqueness', 'Count.is_consistent', 'Count.restricted-rel',
+MUST_HIT = ['EarlierObject.rechecked', 'Count.association', 'Count.uniqueness', 'Count.is_consistent', 'Count.restricted-rel',
             'Count.restricted-kind', 'Count.subtype', 'Cli.main-return', 'Cli.process-exit-status',
             'Count.subtype-after-history', 'Cli.bridgepoint-main', 'Cli.bridgepoint-all-associations-all-classes', 'Cli.bridgepoint-r-k',
             'Cli.bridgepoint-all-associations-k', 'Cli.bridgepoint-r-all-classes', 'Count.null-lowercase-unique_id', 'Count.nonzero-association',
@@ -474,6 +474,9 @@ def run(ctx):
                          sample=dict(schema=schema.sql(), rows=pop.rows, history=log,
                                      association_violations=a, identifier_violations=u))
                 ctx.count('models')
+                import xtuml
+                ctx.later('counts', (lambda m=m: (xtuml.check_association_integrity(m), xtuml.check_uniqueness_constraint(m))),
+                          'violation counts of the model')
             except Mismatch as e:
                 ctx.violation(e.key, e.what, case=case)
         for i in range(ctx.share(320 if ctx.tier == 'quick' else 8000)):
